@@ -101,14 +101,16 @@ Definition get_targets (s : state) : list (string * tval) :=
 Definition map_get {A : Type} (k : string) (m : list (string * option A)) : option A :=
   match assoc k m with Some v => v | None => None end.
 
-(** ** The one open defect this model mirrors
+(** ** The defect C17_1 (fixed in /repo by b7e5099)
 
-    DEFECT C17_1 (fixes/C17_1_load_clone.diff).  [false] = target.go as it is
-    now; once the patch is committed this constant becomes [true] -- the only
-    edit needed.  The three places it reaches are the [_gen] functions below,
-    each marked.  Every theorem is stated for an arbitrary value of the flag
-    (or says which value it needs), so none of them changes with the switch. *)
-Definition patched_C17_1 : bool := false.
+    [true] = target.go as it is now (Load and NewConfigWithBase store
+    proto.Clone(config); Validate treats a nil request pointer as a missing
+    request).  [false] = the code before that commit, kept because the
+    refutation [replay_converges_unpatched_refuted] is a regression witness of
+    the unpatched variant.  The three places the flag reaches are the [_gen]
+    functions below, each marked "C17_1".  Every theorem is stated for an
+    arbitrary value of the flag (or says which value it needs). *)
+Definition patched_C17_1 : bool := true.
 
 (** ** Validate
 
@@ -133,9 +135,9 @@ Fixpoint validate_targets (p : bool) (reqs : list (string * rval)) (ts : list (s
                    else match assoc (t_request t) reqs with
                         | None => Some 5%N
                         | Some None =>
-                            (* DEFECT C17_1: now [_, ok := config.Request[..]; !ok]
-                               lets a nil request pointer through ([p = false]);
-                               patched: [config.Request[..] == nil] is an error *)
+                            (* C17_1: before b7e5099 [_, ok := config.Request[..]; !ok]
+                               let a nil request pointer through ([p = false]);
+                               now [config.Request[..] == nil] is an error *)
                             if p then Some 5%N else validate_targets p reqs ts'
                         | Some (Some _) => validate_targets p reqs ts'
                         end
@@ -225,8 +227,8 @@ Definition current (s : state) : option config :=
 
 (** what Load / NewConfigWithBase keep of the message they are handed *)
 Definition store_gen (p : bool) (cf : config) : config :=
-  (* DEFECT C17_1: now [c.configuration = config], the caller's own message
-     ([p = false]); patched: [proto.Clone(config)] *)
+  (* C17_1: before b7e5099 [c.configuration = config], the caller's own message
+     ([p = false]); now [proto.Clone(config)] *)
   if p then clone_config cf else cf.
 
 (** ** Load
@@ -266,12 +268,13 @@ Definition new_config_with_base : option config -> outcome state :=
 (** ** the caller edits, in place, the message it handed to the last accepted
     Load (or to NewConfigWithBase)
 
-    As long as the configuration is stored by reference such an edit is an
-    edit of [Config.configuration] itself: no validation, no revision gate, no
-    handler call.  [c'] is the content of the message after the edit. *)
+    While the configuration was stored by reference (before b7e5099) such an
+    edit was an edit of [Config.configuration] itself: no validation, no
+    revision gate, no handler call.  [c'] is the content of the message after
+    the edit. *)
 Definition mutate_gen (p : bool) (s : state) (c' : config) : state :=
-  (* DEFECT C17_1: now the stored message is the caller's ([p = false]);
-     patched: the state is a private copy and the edit does not reach it *)
+  (* C17_1: before b7e5099 the stored message was the caller's ([p = false]);
+     now the state is a private copy and the edit does not reach it *)
   if p then s
   else match s with Some _ => Some c' | None => None end.
 
